@@ -262,6 +262,15 @@ def _label(label):
 
             if a[0].domain != TARGET_DOMAIN:
                 FACTS["line10_in_source_domain"] = True
+                kernel.count("C05:line10:inside-a-source-domain")
+            from y0.dsl import Probability, Sum
+
+            e = a[0].expression
+            e = e.expression if isinstance(e, Sum) else e
+            joint = isinstance(e, Probability) and not e.parents
+            kernel.count("C05:line10:working-distribution-" + ("a-joint" if joint else "not-a-joint"))
+            if not joint:
+                FACTS["line10_not_joint"] = True
 
     return post
 
